@@ -10,7 +10,9 @@ Clauses
   finite     no NaN/inf (all sample points are inside the certified domain)
   affine     |J - A|_ej <= 256 eps (sum_l |A_el x_l| + |b_e| + |A_ej| h_max) / h_min   (difference rules)
                        <= 4 eps |A_ej|                     (complex order 2, multicomplex: no difference)
-  envelope   |J - exact|_ej <= tol[method|1|k-bucket] * S_1(e, j) + 64 eps (|exact| + (n+2) noise_e / h_min)
+  envelope   |J - exact|_ej <= tol[method|1|k-bucket] * S_1(e, j) + floor,
+             floor = 64 eps (|exact| + (n+2) (cond + noise_e / h_f) + 2 M_e(h_f) / h_f)   (h_f = reported final_step,
+             clamped into the generated range; the 1/h_f terms only for difference-forming rules)
              (C01 table, overridden per key by constants.json:C03_tol; missing key = weak cell)
   grad-row   Gradient(f)(x) == squeeze(Jacobian(f)(x.ravel())) (same configuration), bitwise
   direction  |directionaldiff - grad.v/|v|| <= K_DIR (est_dir + sum_j |v_j| est_j / |v|) + floor, asserted when
@@ -70,7 +72,7 @@ def c03_case(draw):
         else:
             base = draw(mv.mv_cases(containers=('0d',), kinds=KINDS))
     case = dict(base, api=api, method=method, order=order, xform=xform, grid=grid,
-                step=draw(mv.step_specs(method)), full_output=draw(st.booleans()))
+                step=draw(mv.step_specs(method)), full_output=True)
     if api == 'directional':
         n = base['prog']['n']
         v = [draw(mv.coefs(-1.0, 1.0)) if draw(st.integers(0, 3)) else 0.0 for _ in range(n)]
@@ -219,6 +221,12 @@ class C03(Prop):
                     hf = min(max(fstep[e, j], hmin[j]), hmax[j])
                 floor = FLOOR * EPS * (abs(exact[e, j]) + (n + 2) * (
                     an.cond(e, (j,)) + (an.noise(e) / hf if diff_forming else 0.0)))
+                if diff_forming and fstep is not None:
+                    # rounding of the function values at the reported step: eps * |values| / h_f (when every
+                    # sample rounds to the same float the library legitimately returns 0 +- 0, C02 (a))
+                    Mf = float(an.majorant(e, (j,), [min(w * hf, an.reach_limit((j,)), mv.R_CAP)])[0])
+                    if math.isfinite(Mf):
+                        floor += FLOOR * EPS * 2.0 * Mf / hf
                 excess = max(err - floor, 0.0)
                 ratio = excess / S if S > 0 else (0.0 if excess == 0 else math.inf)
                 ctx.track('err/S|%s|1|%s' % (method, bucket), ratio,
@@ -451,6 +459,14 @@ class C03(Prop):
                 if math.isfinite(Mj):
                     extra += abs(unit[j]) * 2.0 * Mj / hf
             floor += FLOOR * EPS * extra
+        else:
+            # complex-step rules: relative rounding of the imaginary parts of the intermediates, eps * S_1
+            extra = an.scale(1, 0, tuple(range(n)), w * hmin0, math.inf) or 0.0
+            hsg = np.array([np.ravel(t) for t in steps])
+            for j in range(n):
+                extra += abs(unit[j]) * (an.scale(1, 0, (j,), w * hsg[:, j].min(), math.inf) or 0.0)
+            if math.isfinite(extra):
+                floor += FLOOR * EPS * extra
         diff = abs(dd - rel)
         excess = max(diff - floor, 0.0)
         ratio = excess / est_sum if est_sum > 0 else (0.0 if excess == 0 else math.inf)
